@@ -181,7 +181,10 @@ Definition step02 (b : bscen) (s : b02) (e : bev) : b02 :=
 Definition mon_C02r (b : bscen) (o : bobs) : bool :=
   okr02 (fold_left (step02 b) (bo_evs o) (mkb02 (fun _ => None) (fun _ => 0) true)).
 
-Definition mon_C02 (b : bscen) (o : bobs) : bool := let s := breplay b o in ok02 s && ok04 s && mon_C02r b o.
+Definition no_bad_release_b (o : bobs) : bool :=
+  forallb (fun e => match e with BE (ERaw _ _ _ RBad) => false | _ => true end) (bo_evs o).
+Definition mon_C02 (b : bscen) (o : bobs) : bool :=
+  let s := breplay b o in ok02 s && ok04 s && mon_C02r b o && no_bad_release_b o.
 (* C09: retrying acquisitions never wait while holding, and the run completes *)
 Definition mon_C09 (b : bscen) (o : bobs) : bool := ok09 (breplay b o) && is_done o.
 (* the interleaved parts of C03 / C05 *)
